@@ -284,6 +284,8 @@ def _satsolve_filein_stdout(F, cmd='sat4j', verbose=0):
         (output, err) = p.communicate()
     except OSError:
         pass
+    finally:
+        os.unlink(cnf.name)
 
     # parse the solver output, for example
     #
